@@ -15,6 +15,7 @@ import (
 const (
 	EmptyKey = 0
 	BigKey   = 1000000
+	MaxKey   = 999999 // a key of exactly MaxKeySize (32768) bytes: the longest legal key
 	NilV     = -1
 	Unknown  = -2 // bytes that are not the image of any id: always a mismatch
 )
@@ -69,6 +70,11 @@ func (p Profile) Key(id int) []byte {
 		binary.BigEndian.PutUint16(b, uint16(0xFFF0))
 		return b
 	}
+	if id == MaxKey {
+		b := make([]byte, 32768)
+		binary.BigEndian.PutUint16(b, uint16(0xFFF0))
+		return b
+	}
 	if p.Text {
 		b := []byte(fmt.Sprintf("k%05d", id))
 		for i := len(b); i < p.KeyLen; i++ {
@@ -97,6 +103,12 @@ func (p Profile) KeyID(b []byte) int {
 	}
 	if len(b) > 32768 {
 		return BigKey
+	}
+	if len(b) == 32768 {
+		if !bytes.Equal(p.Key(MaxKey), b) {
+			return Unknown
+		}
+		return MaxKey
 	}
 	if p.Text {
 		id := 0
